@@ -229,6 +229,35 @@ def inline_function(F, f, cm, done, depth=0):
         blk = blocks[i]
         i += 1
         t = blk["term"]
+        if t["t"] == "drop" and not blk["cleanup"] and not t.get("glue_only") and depth < MAX_DEPTH:
+            # dropping a value of a NEW type (its Drop impl is not in the inventory): run the user Drop body here, then the field glue.
+            # This is what makes an RAII guard introduced by a refactor visible to rules that look at one body.
+            a = F.adts.get(t.get("adt") or "")
+            dg = F.fns.get(a["drop"]) if a and a.get("drop") else None
+            if dg is not None and dg.path != f.path and strip_generics(dg.path) not in inventory() and dg.path not in inventory() and not is_anchor(dg):
+                graw = inline_function(F, dg, cm, done, depth + 1)
+                lo = len(locals_)
+                for l in graw["locals"]:
+                    locals_.append({"i": l["i"] + lo, "t": l["t"], "adt": l["adt"]})
+                short = dg.path.split("::")[-1]
+                for k, v in graw["names"].items():
+                    names[str(int(k) + lo)] = "%s.%s" % (short, v)
+                # residual block: the original drop terminator (field glue only)
+                rb = len(blocks)
+                t2 = dict(t)
+                t2["glue_only"] = True
+                blocks.append({"b": rb, "cleanup": False, "st": [], "term": t2, "src": blk.get("src")})
+                bo = len(blocks)
+                src = {"fn": dg.path, "file": dg.file}
+                unit = len(locals_)
+                locals_.append({"i": unit, "t": "()", "adt": ""})
+                for gb in graw["blocks"]:
+                    blocks.append(_remap_block(gb, lo, bo, {"l": unit}, rb, src))
+                blk["st"] = blk["st"] + [{"s": "assign", "lhs": {"l": lo + 1}, "rv": {"r": "ref", "m": "Mut { kind: Default }", "pl": copy.deepcopy(t["pl"])},
+                                          "ln": t.get("ln"), "x": False, "inl_arg": True}]
+                blk["term"] = {"t": "goto", "to": bo, "inlined_call": dg.path, "inlined_drop": True, "ln": t.get("ln")}
+                inlined.append(dg.path)
+            continue
         if t["t"] != "call" or blk["cleanup"]:
             continue
         g = _callee_fn(F, t)
@@ -239,6 +268,16 @@ def inline_function(F, f, cm, done, depth=0):
             if w:
                 g, mode, wop = w
                 mode = "with-" + mode
+        if g is None and strip_generics(callee_name(t)) == WITH and len(t["args"]) >= 2 and t["args"][1]["k"] == "c" and "fn" in t["args"][1]:
+            # `KEY.with(RefCell::take)` and friends: a foreign fn item applied to the thread-local cell -- rewrite to the direct call
+            a = t["args"][1]
+            key_ty = t["args"][0].get("t", "") if t["args"][0]["k"] == "c" else ""
+            cell_ty = _tls_type(t, key_ty)
+            inner = cell_ty[len("std::cell::RefCell<"):-1] if cell_ty.startswith("std::cell::RefCell<") and cell_ty.endswith(">") else cell_ty
+            blk["term"] = {"t": "call", "callee": a["fn"], "resolved": a["fn"], "foreign": False, "local": False, "krate": a["fn"].split("::")[0],
+                           "resolved_local": False, "generics": [inner], "args": [{"k": "c", "t": "&" + cell_ty, "static": "tls:" + cell_ty, "s": "tls"}],
+                           "dest": t["dest"], "to": t["to"], "unwind": t.get("unwind"), "ln": t.get("ln"), "x": t.get("x", False), "via_with": True}
+            continue
         if g is None:
             # a closure parameter invoked through FnOnce/FnMut/Fn: resolvable once the helper that received it is inlined
             cc = _closure_call_target(F, Fn(raw, F), t)
@@ -319,7 +358,7 @@ class InlinedFacts:
         for lst in self.inlined_into.values():
             for g in lst:
                 gf = F.fns.get(g)
-                if gf is not None and (gf.kind == "Closure" or "Public" not in (gf.vis or "")):
+                if gf is not None and (gf.kind == "Closure" or "Public" not in (gf.vis or "") or gf.impl_trait == "std::ops::Drop"):
                     self.consumed.add(g)
         self.fns = {p: f for p, f in allfns.items() if p not in self.consumed}
         self.all_fns = allfns
